@@ -187,5 +187,5 @@ def assert_same(eng, va, vb, cond):
     if not hasattr(eng, "store_eqs"):
         eng.store_eqs = []
     eng.store_eqs.append((va, vb, cond))
-    for name in set(va.cache) | set(vb.cache):
+    for name in (set(va.cache) | set(vb.cache)) & set(FOLDS):
         eng.facts.add(z3.Implies(cond, fold(eng, va, name) == fold(eng, vb, name)))
